@@ -77,6 +77,19 @@ def main():
             ok = bool(got & want)
             bad += not ok
             print(f"{'rejected' if ok else 'NOT REJECTED'}: {what}: {sorted(got)}")
+        # single-case replay configuration: the property as a TLC invariant
+        import json
+        import os
+        path = os.path.join(tmp, "replay.json")
+        with open(path, "w") as f:
+            json.dump([batch[0]], f)
+        res = core.run_tlc("Trace_InvokeBinding.tla",
+                           "Trace_InvokeBinding_replay.cfg",
+                           env={"PV_CASES": path}, workers=1, check=False)
+        ok = res.invariant_violated == "InvAgree"
+        bad += not ok
+        print("replay cfg on the first corrupted case: invariant",
+              res.invariant_violated, "violated" if ok else "(expected InvAgree)")
     finally:
         shutil.rmtree(tmp, ignore_errors=True)
     return 1 if bad else 0
